@@ -411,6 +411,18 @@ def discharge(o, hyps, pool, budget_ms=20000):
             if rr['status'] == 'proved':
                 return dict(status='proved', backend=rr['backend'], seconds=time.time() - t0, witness=None,
                             detail='equality follows from the path condition')
+            if rr['status'] == 'refuted' and o.exact_uf and _has_uninterpreted(o, hyps):
+                # array contents are arbitrary (uninterpreted): the solver's model IS a concrete array
+                w = None
+                if rr['model'] and all(v is not None for v in rr['model'].values()):
+                    w = Point('smtmodel', {k: v for k, v in rr['model'].items()
+                                           if core.CTX.atoms[k].get('defn') is None})
+                    w.fn_points = rr.get('fn_points') or []
+                fp = '; '.join(f"{nm}({', '.join(f'{a:g}' for a in args)}) = {val:g}" for nm, args, val in
+                               sorted((rr.get('fn_points') or []), key=lambda t: (t[0], t[1])) if val is not None)
+                return dict(status='refuted', backend=rr['backend'], seconds=time.time() - t0, witness=w,
+                            detail='SMT counter-model (array contents are arbitrary: the model is a concrete array): '
+                                   + fp[:900])
         # non-zero residual although every sample agreed in double precision: look
         # for a point where the two sides differ in 60-digit arithmetic
         detail = 'non-zero residual: ' + '; '.join(f'{k}: {res}' for k, res in r['failed'][:3])
@@ -423,7 +435,11 @@ def discharge(o, hyps, pool, budget_ms=20000):
                                 detail=detail + f' ; |lhs-rhs| = {float(dlt):.3e} at a sample point (60 digits)')
             except Exception:
                 continue
-        return dict(status='refuted' if not pts else 'undecided', backend=r['method'],
+        # (with no sample point on the path the normaliser's verdict stands alone: it is a decision procedure for
+        # rational functions only - a residual with uninterpreted function atoms in it decides nothing)
+        # no sample point on this path: nothing shows the path itself to be feasible (an oracle time-out keeps
+        # infeasible paths alive), so a non-zero residual alone refutes nothing
+        return dict(status='undecided', backend=r['method'],
                     seconds=time.time() - t0, witness=None, detail=detail)
     if o.kind == 'holds':
         goal = o.lhs
@@ -508,6 +524,19 @@ def discharge(o, hyps, pool, budget_ms=20000):
 def _has_uninterpreted(o, hyps):
     roots = [x for x in (o.lhs, o.rhs) if x is not None] + list(hyps)
     return any(n.op in ('fn', 'rpow') for n in core.topo(roots, defs=True))
+
+
+def _has_fn_nodes(o):
+    seen, stack = set(), [x for x in (o.lhs, o.rhs) if x is not None]
+    while stack:
+        n = stack.pop()
+        if n.id in seen:
+            continue
+        seen.add(n.id)
+        if n.op == 'fn':
+            return True
+        stack.extend(a for a in n.args if hasattr(a, 'id'))
+    return False
 
 
 def _has_int_atoms(o):
@@ -608,10 +637,15 @@ def run_symbolic(contract, cfg, modules, seed=0, pool_size=6, max_paths=64, budg
             for pc, out in ctrl.run(once):
                 per_path.append((pc, out))
                 FREE[tuple(c.id for c in pc)] = list(ctrl.last_free)
-    except (EngineLimit, core.PathLimit) as e:
+    except EngineLimit as e:
         run.error = f'{type(e).__name__}: {e}'
         run.stats = dict(ctrl.stats, seconds=time.time() - t0)
         return run, S, pool
+    except core.PathLimit as e:
+        # the exploration is incomplete, so nothing can be reported as held (run.error makes the contract
+        # undecided); the obligations of the paths that were completed are still discharged - a refutation
+        # there, replayed on the real code, stands whatever the unexplored paths would have said
+        run.error = f'{type(e).__name__}: {e}'
     run.notes = list(S.notes)
     assume = list(core.CTX.assume)
     DEADLINE['t'] = time.time() + time_cap_s
